@@ -2,6 +2,7 @@ import Driver.Util
 import BtcModel.Model.Tree
 import BtcModel.Model.Watchdog
 import Driver.Canister
+import BtcModel.Model.Canister
 
 open Btc
 
@@ -14,6 +15,10 @@ structure DState where
   st : Option State := none
   /-- ghost: the blocks ingested so far (the stable chain below the anchor), genesis first -/
   ghost : List Block := []
+  now : Nat := 0
+  /-- decode oracle: what the library decoders return for the blobs seen so far -/
+  decBlocks : List (String × Option Block) := []
+  decHeaders : List (String × Option NextHeader) := []
 
 def statusCode : Watchdog.Status → Nat
   | .notEnoughData => 0 | .ok => 1 | .ahead => 2 | .behind => 3
@@ -24,9 +29,176 @@ def fullChainTo (ghost : List Block) (s : State) (tip : Nat) : Option (List Bloc
 
 def canonUtxos (l : List Utxo) : String := showUtxoList (Spec.canonical l)
 
+def summary (s : State) : String :=
+  let sy := s.syncing
+  let resp := match sy.response with
+    | none => "none"
+    | some (.complete r) => s!"complete:{r.blocks.length}:{r.next.length}"
+    | some (.partial_ p k) => s!"partial:{k}/{p.remaining}:{p.partialBlock.length / 2}"
+  let b (x : Bool) : Nat := if x then 1 else 0
+  s!"stable={s.utxos.nextHeight} ingesting={b s.utxos.ingesting.isSome} fetching={b sy.isFetching} resp={resp} rej={sy.rejects} deser={sy.deserializeErrors} insert={sy.insertErrors} blocks={s.unstable.tree.blocksCount} maxnext={showOptNat s.unstable.next.maxHeight}"
+
+def envOf (d : DState) : Env :=
+  { now := d.now
+    dec := { block := fun blob => (AList.find? d.decBlocks blob).getD none
+             header := fun blob => (AList.find? d.decHeaders blob).getD none }
+    bound := testnetBound
+    syncedThreshold := Btc.Gen.syncedThreshold
+    maxHeaders := Btc.Gen.maxBlockHeadersPerResponse
+    numTransactions := Btc.Gen.numTransactions }
+
+def parseHeaderDec (raw : String) (s : String) : Option NextHeader :=
+  if s == "G" then none
+  else match splitOnChar s ',' with
+    | [h, p, t, b] => some ⟨hexToNat h, hexToNat p, t.toNat!, b.toNat!, raw⟩
+    | _ => none
+
+/-- `blob=decoded` → (blob, decoded) -/
+def splitBlob (s : String) : String × String :=
+  match splitOnChar s '=' with
+  | [a, b] => (if a == "-" then "" else a, b)
+  | _ => (s, "G")
+
+def registerBlocks (d : DState) (items : List String) : DState × List String :=
+  items.foldl (fun (acc : DState × List String) it =>
+    let (blob, dec) := splitBlob it
+    let decoded := if dec == "G" then none else some (parseBlock dec)
+    ({ acc.1 with decBlocks := AList.insert acc.1.decBlocks blob decoded }, acc.2 ++ [blob])) (d, [])
+
+def registerHeaders (d : DState) (items : List String) : DState × List String :=
+  items.foldl (fun (acc : DState × List String) it =>
+    let (blob, dec) := splitBlob it
+    ({ acc.1 with decHeaders := AList.insert acc.1.decHeaders blob (parseHeaderDec blob dec) }, acc.2 ++ [blob])) (d, [])
+
+def dropPrefix (s : String) (n : Nat) : String := (s.drop n).toString
+
+def showRequest : State.Request → String
+  | .initial a ps => s!"initial {hash64 a} [{joinWith "," (ps.map hash64)}]"
+  | .followUp k => s!"followup {k}"
+
+def applyReply (d : DState) (s : State) (r : State.Reply) : DState × String :=
+  match s.heartbeatReply r with
+  | some s' => ({ d with st := some s' }, s!"stored | {summary s'}")
+  | none =>
+    let s' := s.replyTrapState
+    ({ d with st := some s' }, s!"trap | {summary s'}")
+
+def parseFees (csv : String) : Fees :=
+  match (splitOnChar csv ',').map String.toNat! with
+  | [a, b, c, e, f, g, h, i, j, k, l, m] =>
+    { getUtxosBase := a, getUtxosCyclesPerTenInstructions := b, getUtxosMaximum := c, getBalance := e,
+      getBalanceMaximum := f, getCurrentFeePercentiles := g, getCurrentFeePercentilesMaximum := h,
+      sendTransactionBase := i, sendTransactionPerByte := j, getBlockHeadersBase := k,
+      getBlockHeadersCyclesPerTenInstructions := l, getBlockHeadersMaximum := m }
+  | _ => {}
+
+def showRefusal : State.Refusal → String
+  | .apiDisabled => "trap api-disabled"
+  | .wrongNetwork => "trap wrong-network"
+  | .notSynced => "trap not-synced"
+
+/-- a gated endpoint call: `(new state, result text, accepted cycles)` -/
+def endpointCall (d : DState) (s : State) (ep : String) (reqNet : Tree.Net) (avail ins : Nat)
+    (addr : State.AddrArg) (cc start : Nat) : State × String × Nat :=
+  let env := envOf d
+  match s.guard env reqNet true with
+  | some r => (s, showRefusal r, 0)
+  | none =>
+    let f := s.fees
+    if ep == "get_utxos" || ep == "get_utxos_query" then
+      let res := s.getUtxos addr (.minConf cc) Btc.Gen.maxUtxosPerResponse
+      let (text, isErr, isTrap) := match res with
+        | .ok r => (s!"ok {r.tipHeight}", false, false)
+        | .err _ => ("err", true, false)
+        | .trap _ => ("trap other", false, true)
+      if ep == "get_utxos_query" then (s, text, 0)
+      else match State.chargeMetered avail f.getUtxosBase f.getUtxosCyclesPerTenInstructions f.getUtxosMaximum ins isErr with
+        | none => (s, "trap " ++ (if avail < f.getUtxosMaximum || avail < f.getUtxosBase then "cycles" else "other"), 0)
+        | some acc => if isTrap then (s, text, 0) else (s, text, acc)
+    else if ep == "get_balance" || ep == "get_balance_query" then
+      let res := s.getBalance addr cc
+      let (text, isTrap) := match res with
+        | .ok v => (s!"ok {v}", false)
+        | .err _ => ("err", false)
+        | .trap _ => ("trap other", true)
+      if ep == "get_balance_query" then (s, text, 0)
+      else match State.chargeFlat avail f.getBalance f.getBalanceMaximum with
+        | none => (s, "trap cycles", 0)
+        | some acc => if isTrap then (s, text, 0) else (s, text, acc)
+    else if ep == "get_block_headers" then
+      match State.chargeFlat avail f.getBlockHeadersBase f.getBlockHeadersMaximum with
+      | none => (s, "trap cycles", 0)
+      | some _ =>
+        let res := s.getBlockHeaders Btc.Gen.maxBlockHeadersPerResponse start none
+        let (text, isErr) := match res with
+          | .ok (tip, _) => (s!"ok {tip}", false)
+          | .error _ => ("err", true)
+        match State.chargeMetered avail f.getBlockHeadersBase f.getBlockHeadersCyclesPerTenInstructions f.getBlockHeadersMaximum ins isErr with
+        | none => (s, "trap other", 0)
+        | some acc => (s, text, acc)
+    else
+      match State.chargeFlat avail f.getCurrentFeePercentiles f.getCurrentFeePercentilesMaximum with
+      | none => (s, "trap cycles", 0)
+      | some acc =>
+        match s.feePercentiles Btc.Gen.numTransactions with
+        | none => (s, "trap other", 0)
+        | some (s', p) => (s', s!"ok {p.length}", acc)
+
 /-- canister ops (`c ...`) -/
 def stepCanister (d : DState) (ws : List String) : DState × String :=
   match ws, d.st with
+  | ["time", t], _ => ({ d with now := t.toNat! }, "-")
+  | ["setfees", csv], some s => ({ d with st := some { s with fees := parseFees csv } }, "-")
+  | ["hb", budget], some s =>
+    let finish (s' : State) (o : String) : DState × String :=
+      let popped := match Tree.chainWithTip CBlock.hash s'.unstable.tree.root.hash s.unstable.tree with
+        | some (p, _) => (p.dropLast).map (·.blk)
+        | none => []
+      ({ d with st := some s', ghost := d.ghost ++ popped }, s!"{o} | {summary s'}")
+    match s.heartbeatStart (envOf d) budget.toNat! with
+    | .trap => (d, s!"trap | {summary s}")
+    | .ingested s' _ => finish s' "done"
+    | .processed s' => finish s' "done"
+    | .awaiting s' r => finish s' s!"await {showRequest r}"
+  | ["reply", "reject"], some s => applyReply d s .reject
+  | ["reply", "complete", blocks, next], some s =>
+    let (d1, bs) := registerBlocks d (parseList (dropPrefix blocks 7) '&')
+    let (d2, hs) := registerHeaders d1 (parseList (dropPrefix next 5) '&')
+    applyReply d2 s (.complete ⟨bs, hs⟩)
+  | ["reply", "partial", k, piece, next, decoded], some s =>
+    let (d1, _) := registerBlocks d [dropPrefix decoded 8]
+    let (d2, hs) := registerHeaders d1 (parseList (dropPrefix next 5) '&')
+    applyReply d2 s (.partial_ ⟨if piece == "-" then "" else piece, hs, k.toNat!⟩)
+  | ["reply", "followup", piece], some s => applyReply d s (.followUp (if piece == "-" then "" else piece))
+  | ["upgrade", arg], some s =>
+    let cfg : Option State.SetConfig :=
+      if arg.startsWith "thr=" then some { stabilityThreshold := some (dropPrefix arg 4).toNat! } else none
+    let s' := s.upgrade cfg
+    ({ d with st := some s' }, s!"ok | {summary s'}")
+  | ["setcfg", kv], some s =>
+    let v := kv.endsWith "=1"
+    let cfg : State.SetConfig :=
+      if kv.startsWith "api=" then { apiAccess := some v }
+      else if kv.startsWith "syncflag=" then { disableApiIfNotSynced := some v }
+      else if kv.startsWith "syncing=" then { syncing := some v }
+      else if kv.startsWith "lazy=" then { lazyFees := some v }
+      else if kv.startsWith "thr=" then { stabilityThreshold := some (dropPrefix kv 4).toNat! }
+      else {}
+    ({ d with st := some (s.setConfig cfg) }, "-")
+  | ["call", ep, net, avail, ins, tok, cc, start], some s =>
+    let (s', text, acc) := endpointCall d s ep (parseNet net) avail.toNat! ins.toNat! (parseAddrArg tok) cc.toNat! start.toNat!
+    ({ d with st := some s' }, s!"{text} accepted={acc} unchanged=1")
+  | ["sendtx", net, avail, len, wf], some s =>
+    match s.guard (envOf d) (parseNet net) false with
+    | some r => (d, s!"{showRefusal r} accepted=0 counted=0 forwarded=none")
+    | none =>
+      match State.chargeSend avail.toNat! s.fees.sendTransactionBase s.fees.sendTransactionPerByte len.toNat! with
+      | none => (d, "trap cycles accepted=0 counted=0 forwarded=none")
+      | some acc =>
+        let (s', fwd) := s.sendTransaction (wf == "wellformed=1")
+        if fwd then ({ d with st := some s' }, s!"ok accepted={acc} counted=1 forwarded={net}:same")
+        else (d, s!"err MalformedTransaction accepted={acc} counted=0 forwarded=none")
+  | ["q", "synced"], some s => (d, if s.isSynced Btc.Gen.syncedThreshold then "1" else "0")
   | ["init", net, thr, blk], _ =>
     match State.new thr.toNat! (parseNet net) (parseBlock blk) with
     | some s => ({ d with st := some s, ghost := [] }, "-")
@@ -50,14 +222,19 @@ def stepCanister (d : DState) (ws : List String) : DState × String :=
     | .done s' false => finish s' "done0"
   | ["q", "info"], some s => (d, showInfo s.blockchainInfo)
   | ["q", "utxos", tok, filter, lim], some s =>
+    if (s.guard (envOf d) s.network true).isSome then (d, "trap") else
     (d, showUtxosResult (s.getUtxos (parseAddrArg tok) (parseFilter filter) lim.toNat!))
   | ["q", "utxosall", tok, filter, lim], some s =>
+    if (s.guard (envOf d) s.network true).isSome then (d, "trap") else
     (d, utxosAll s (parseAddrArg tok) (parseFilter filter) lim.toNat!)
   | ["q", "balance", tok, c], some s =>
+    if (s.guard (envOf d) s.network true).isSome then (d, "trap") else
     (d, showBalance (s.getBalance (parseAddrArg tok) ((optNat c).getD 0)))
   | ["q", "headers", a, b], some s =>
+    if (s.guard (envOf d) s.network true).isSome then (d, "trap") else
     (d, showHeaders (s.getBlockHeaders Btc.Gen.maxBlockHeadersPerResponse a.toNat! (optNat b)))
   | ["q", "fees"], some s =>
+    if (s.guard (envOf d) s.network true).isSome then (d, "trap") else
     match s.feePercentiles Btc.Gen.numTransactions with
     | none => (d, "trap")
     | some (s', p) => ({ d with st := some s' }, showNatList p)
